@@ -1,0 +1,13 @@
+//go:build verif
+
+package utreexo
+
+// VerifPointHook, when set, is called with the site name at marked points inside the
+// critical sections of MapPollard. Only compiled with the build tag "verif".
+var VerifPointHook func(site string)
+
+func verifPoint(site string) {
+	if h := VerifPointHook; h != nil {
+		h(site)
+	}
+}
